@@ -19,6 +19,27 @@ Gen/Enums.vos Gen/Enums.vok Gen/Enums.required_vos: Gen/Enums.v
 Gen/Layouts.vo Gen/Layouts.glob Gen/Layouts.v.beautified Gen/Layouts.required_vo: Gen/Layouts.v Base/Layout.vo
 Gen/Layouts.vio: Gen/Layouts.v Base/Layout.vio
 Gen/Layouts.vos Gen/Layouts.vok Gen/Layouts.required_vos: Gen/Layouts.v Base/Layout.vos
+Model/MetaCodec.vo Model/MetaCodec.glob Model/MetaCodec.v.beautified Model/MetaCodec.required_vo: Model/MetaCodec.v Base/Plan.vo Base/Layout.vo
+Model/MetaCodec.vio: Model/MetaCodec.v Base/Plan.vio Base/Layout.vio
+Model/MetaCodec.vos Model/MetaCodec.vok Model/MetaCodec.required_vos: Model/MetaCodec.v Base/Plan.vos Base/Layout.vos
+Model/MetaHdd.vo Model/MetaHdd.glob Model/MetaHdd.v.beautified Model/MetaHdd.required_vo: Model/MetaHdd.v Base/Plan.vo Model/MetaCodec.vo
+Model/MetaHdd.vio: Model/MetaHdd.v Base/Plan.vio Model/MetaCodec.vio
+Model/MetaHdd.vos Model/MetaHdd.vok Model/MetaHdd.required_vos: Model/MetaHdd.v Base/Plan.vos Model/MetaCodec.vos
+Model/MetaHdrs.vo Model/MetaHdrs.glob Model/MetaHdrs.v.beautified Model/MetaHdrs.required_vo: Model/MetaHdrs.v Base/Plan.vo Base/Layout.vo Gen/Consts.vo Gen/Layouts.vo Model/MetaCodec.vo
+Model/MetaHdrs.vio: Model/MetaHdrs.v Base/Plan.vio Base/Layout.vio Gen/Consts.vio Gen/Layouts.vio Model/MetaCodec.vio
+Model/MetaHdrs.vos Model/MetaHdrs.vok Model/MetaHdrs.required_vos: Model/MetaHdrs.v Base/Plan.vos Base/Layout.vos Gen/Consts.vos Gen/Layouts.vos Model/MetaCodec.vos
+Model/MetaQcow2.vo Model/MetaQcow2.glob Model/MetaQcow2.v.beautified Model/MetaQcow2.required_vo: Model/MetaQcow2.v Base/Plan.vo Base/Layout.vo Gen/Consts.vo Gen/Layouts.vo Model/MetaCodec.vo
+Model/MetaQcow2.vio: Model/MetaQcow2.v Base/Plan.vio Base/Layout.vio Gen/Consts.vio Gen/Layouts.vio Model/MetaCodec.vio
+Model/MetaQcow2.vos Model/MetaQcow2.vok Model/MetaQcow2.required_vos: Model/MetaQcow2.v Base/Plan.vos Base/Layout.vos Gen/Consts.vos Gen/Layouts.vos Model/MetaCodec.vos
+Model/MetaVhdx.vo Model/MetaVhdx.glob Model/MetaVhdx.v.beautified Model/MetaVhdx.required_vo: Model/MetaVhdx.v Base/Plan.vo Base/Layout.vo Gen/Consts.vo Gen/Layouts.vo Model/MetaCodec.vo
+Model/MetaVhdx.vio: Model/MetaVhdx.v Base/Plan.vio Base/Layout.vio Gen/Consts.vio Gen/Layouts.vio Model/MetaCodec.vio
+Model/MetaVhdx.vos Model/MetaVhdx.vok Model/MetaVhdx.required_vos: Model/MetaVhdx.v Base/Plan.vos Base/Layout.vos Gen/Consts.vos Gen/Layouts.vos Model/MetaCodec.vos
+Model/MetaView.vo Model/MetaView.glob Model/MetaView.v.beautified Model/MetaView.required_vo: Model/MetaView.v Base/Plan.vo Base/Layout.vo Gen/Consts.vo Gen/Layouts.vo Model/MetaCodec.vo Model/MetaQcow2.vo Model/MetaVhdx.vo Model/MetaVmdk.vo Model/MetaHdrs.vo Model/MetaHdd.vo
+Model/MetaView.vio: Model/MetaView.v Base/Plan.vio Base/Layout.vio Gen/Consts.vio Gen/Layouts.vio Model/MetaCodec.vio Model/MetaQcow2.vio Model/MetaVhdx.vio Model/MetaVmdk.vio Model/MetaHdrs.vio Model/MetaHdd.vio
+Model/MetaView.vos Model/MetaView.vok Model/MetaView.required_vos: Model/MetaView.v Base/Plan.vos Base/Layout.vos Gen/Consts.vos Gen/Layouts.vos Model/MetaCodec.vos Model/MetaQcow2.vos Model/MetaVhdx.vos Model/MetaVmdk.vos Model/MetaHdrs.vos Model/MetaHdd.vos
+Model/MetaVmdk.vo Model/MetaVmdk.glob Model/MetaVmdk.v.beautified Model/MetaVmdk.required_vo: Model/MetaVmdk.v Base/Plan.vo Base/Layout.vo Gen/Consts.vo Gen/Layouts.vo Model/MetaCodec.vo
+Model/MetaVmdk.vio: Model/MetaVmdk.v Base/Plan.vio Base/Layout.vio Gen/Consts.vio Gen/Layouts.vio Model/MetaCodec.vio
+Model/MetaVmdk.vos Model/MetaVmdk.vok Model/MetaVmdk.required_vos: Model/MetaVmdk.v Base/Plan.vos Base/Layout.vos Gen/Consts.vos Gen/Layouts.vos Model/MetaCodec.vos
 Model/Vhd.vo Model/Vhd.glob Model/Vhd.v.beautified Model/Vhd.required_vo: Model/Vhd.v Base/Arith.vo Base/Plan.vo Base/Table.vo Gen/Consts.vo
 Model/Vhd.vio: Model/Vhd.v Base/Arith.vio Base/Plan.vio Base/Table.vio Gen/Consts.vio
 Model/Vhd.vos Model/Vhd.vok Model/Vhd.required_vos: Model/Vhd.v Base/Arith.vos Base/Plan.vos Base/Table.vos Gen/Consts.vos
@@ -28,3 +49,6 @@ Proofs/Vhd.vos Proofs/Vhd.vok Proofs/Vhd.required_vos: Proofs/Vhd.v Base/Arith.v
 Props/C04.vo Props/C04.glob Props/C04.v.beautified Props/C04.required_vo: Props/C04.v Base/Plan.vo Base/Table.vo Model/Vhd.vo Proofs/Vhd.vo
 Props/C04.vio: Props/C04.v Base/Plan.vio Base/Table.vio Model/Vhd.vio Proofs/Vhd.vio
 Props/C04.vos Props/C04.vok Props/C04.required_vos: Props/C04.v Base/Plan.vos Base/Table.vos Model/Vhd.vos Proofs/Vhd.vos
+Props/C14.vo Props/C14.glob Props/C14.v.beautified Props/C14.required_vo: Props/C14.v Base/Layout.vo Gen/Layouts.vo Model/MetaCodec.vo
+Props/C14.vio: Props/C14.v Base/Layout.vio Gen/Layouts.vio Model/MetaCodec.vio
+Props/C14.vos Props/C14.vok Props/C14.required_vos: Props/C14.v Base/Layout.vos Gen/Layouts.vos Model/MetaCodec.vos
